@@ -2,7 +2,7 @@
    Only statements closed by [exact]; the lemmas live in Proofs/Paging.v.
    Constants (defaultMaxMetadataBytes, filter names) are Generated/GC15.v,
    re-translated from registry/remote on every run. *)
-From Oras Require Import Base.Prelude Generated.GC15 Model.Paging Model.PagingUrl Proofs.Paging Proofs.PagingUrl Proofs.PagingFacts.
+From Oras Require Import Base.Prelude Generated.GC15 Model.Paging Model.PagingUrl Model.PagingJson Proofs.Paging Proofs.PagingUrl Proofs.PagingFacts Proofs.PagingJson.
 From Coq Require Import Permutation Sorted.
 
 (* parseLink returns exactly the text between '<' and the first '>' whatever follows *)
@@ -653,3 +653,29 @@ Theorem C15_next_request_dot_relative :
     NNext (c_sl :: join [c_sl] (dirs ++ [seg])) (request_query c Q []).
 Proof. exact next_request_dot_relative. Qed.
 Print Assumptions C15_next_request_dot_relative.
+
+(* ---------- encoding/json: the first value of a stream (Model/PagingJson.v) ---------- *)
+
+(* a complete bracketed value is self-delimiting: the stream decoder stops at its end whatever
+   follows, and no proper prefix of it is complete *)
+Theorem C15_json_self_delimiting :
+  forall d, scan d = Some (length d) ->
+    (forall tail, first_value (d ++ tail) = Some d) /\
+    (forall k, (k < length d)%nat -> first_value (firstn k d) = None).
+Proof. exact first_value_self_delimiting. Qed.
+Print Assumptions C15_json_self_delimiting.
+
+(* so behind limitReader a document is decoded completely when it fits and not at all when it
+   does not: C15_limit_bytes without its hypothesis, for the bracket scanner *)
+Theorem C15_limit_bytes_scan :
+  forall d pad limit, scan d = Some (length d) ->
+    (Z.of_nat (length (seen limit (d ++ pad))) <= eff_limit limit)%Z /\
+    first_value (seen limit (d ++ pad)) =
+      if (Z.of_nat (length d) <=? eff_limit limit)%Z then Some d else None.
+Proof. exact scan_limit_bytes. Qed.
+Print Assumptions C15_limit_bytes_scan.
+
+Example C15_example_scan :
+  scan (b " {""tags"":[""a}"",""b\""]""]} x") = Some 23%nat /\
+  scan (b " {""tags"":[""a}"",""b\""]""]") = None.
+Proof. vm_compute. split; reflexivity. Qed.
